@@ -27,9 +27,14 @@ pub struct ItsWorld<'a> {
 }
 
 pub fn build_its_world<'a>(chain_name: &str, hub_address: &str, n_users: usize) -> ItsWorld<'a> {
+    build_its_world_retaining(chain_name, hub_address, n_users, 0)
+}
+
+/// the same world with a gateway that honours `retention` previous signer sets
+pub fn build_its_world_retaining<'a>(chain_name: &str, hub_address: &str, n_users: usize, retention: u64) -> ItsWorld<'a> {
     let env = new_env();
     let set = simple_set(7);
-    let gw = deploy_gateway(&env, [0x11; 32], 0, 0, &[set.clone()]).expect("gateway");
+    let gw = deploy_gateway(&env, [0x11; 32], 0, retention, &[set.clone()]).expect("gateway");
     let gas = deploy_gas(&env);
     let its = deploy_its(&env, &gw.id, &gas.id, hub_address, chain_name);
     let users: Vec<Address> = (0..n_users).map(|_| Address::generate(&env)).collect();
